@@ -12,7 +12,7 @@ pub fn meta(tier: &str) -> CheckMeta {
     let (n, cap) = params(tier);
     CheckMeta {
         id: "C14", level: "model_checking",
-        rule: "E-box over token sets x strings. Token menu over {a,b,c}: literals a ab abc b bc; patterns a+ ab* [ab]+ a|bc a?b a{2,3} [^a\\s]+ \\p{L}+; each plain or wrapped in token(prec(p,.)) with p in {-1,1}. Families: (i) token soup repeat(choice(t..)) for every ordered pair of menu variants (39x39) and every ordered triple of distinct plain items; (ii) two-context grammars choice(seq('x',A,B), seq('y',C)) for every ordered triple of distinct plain items (validity depends on the parse state); (iii) keyword grammars (word token [a-c]+ with keywords ab, abc, optional third keyword); each with extras in {none, space}; (iv) regex structure: every regular expression of nesting depth <= 2 over the atoms a, b, [ab] with postfix ? * + {0,1} {0,2} {1,2} {2} {2,}, concatenation and alternation, plus the depth-3 shapes (atom next to a quantified atom) combined with every small expression (quick) or every expression of depth <= 1 (thorough); those matching the empty string are removed, sixteen per grammar behind distinct prefix characters, against every string over {a,b}: accepted exactly when the `regex` crate matches the whole string. Inputs: every string over {a,b,c,space} (plus e-acute where a Unicode class is present) up to the length bound. Oracle: a reference tokenizer built on the `regex` crate (independent of the generator's NFA), applying the documented order among the tokens valid at the position: lexical precedence, longest match, string over pattern, earlier definition; keyword only if the whole word equals it. If the reference tokenization exists, the parse must be error-free with exactly that leaf sequence (kinds and byte ranges); otherwise the parse must report an error. Non-trivial = (grammar, input) pairs where at least two tokens match at some position.",
+        rule: "E-box over token sets x strings. Token menu over {a,b,c}: literals a ab abc b bc; patterns a+ ab* [ab]+ a|bc a?b a{2,3} [^a\\s]+ \\p{L}+ and ab with the flag i; each plain or wrapped in token(prec(p,.)) with p in {-1,1}. Families: (i) token soup repeat(choice(t..)) for every ordered pair of menu variants (39x39) and every ordered triple of distinct plain items; (ii) two-context grammars choice(seq('x',A,B), seq('y',C)) for every ordered triple of distinct plain items (validity depends on the parse state); (iii) keyword grammars (word token [a-c]+ with keywords ab, abc, optional third keyword); each with extras in {none, space}; (iv) regex structure: every regular expression of nesting depth <= 2 over the atoms a, b, [ab] with postfix ? * + {0,1} {0,2} {1,2} {2} {2,}, concatenation and alternation, plus the depth-3 shapes (atom next to a quantified atom) combined with every small expression (quick) or every expression of depth <= 1 (thorough); those matching the empty string are removed, sixteen per grammar behind distinct prefix characters, against every string over {a,b}: accepted exactly when the `regex` crate matches the whole string. Inputs: every string over {a,b,c,space} (plus e-acute where a Unicode class is present) up to the length bound. Oracle: a reference tokenizer built on the `regex` crate (independent of the generator's NFA), applying the documented order among the tokens valid at the position: lexical precedence, longest match, string over pattern, earlier definition; keyword only if the whole word equals it. If the reference tokenization exists, the parse must be error-free with exactly that leaf sequence (kinds and byte ranges); otherwise the parse must report an error. Non-trivial = (grammar, input) pairs where at least two tokens match at some position.",
         assumptions: vec!["the documented five-rule order (docs/src/creating-parsers/3-writing-the-grammar.md, 'Conflicting tokens') is the specification".into()],
         exhaustive: true,
         bounds: json!({"max_input_chars": n, "grammars_cap_per_family": cap}),
@@ -26,11 +26,12 @@ pub struct TokDef { pub name: String, pub expr: Value, pub is_string: bool, pub 
 
 pub fn menu() -> Vec<(&'static str, bool)> {
     vec![("a", true), ("ab", true), ("abc", true), ("b", true), ("bc", true),
-         ("a+", false), ("ab*", false), ("[ab]+", false), ("a|bc", false), ("a?b", false), ("a{2,3}", false), ("[^a\\s]+", false), ("\\p{L}+", false)]
+         ("a+", false), ("ab*", false), ("[ab]+", false), ("a|bc", false), ("a?b", false), ("a{2,3}", false), ("[^a\\s]+", false), ("\\p{L}+", false), ("(?i)ab", false)]
 }
 
 fn mk_tok(idx: usize, item: (&str, bool), p: Option<i32>) -> TokDef {
-    let base = if item.1 { s(item.0) } else { pat(item.0) };
+    // "(?i)x" in the menu stands for the pattern x with the grammar-level flag "i" (the reference regex keeps the inline flag)
+    let base = if item.1 { s(item.0) } else if let Some(rest) = item.0.strip_prefix("(?i)") { pat_flags(rest, "i") } else { pat(item.0) };
     let expr = match p { Some(p) => token(prec(p, base)), None => base };
     let re = if item.1 { regex::escape(item.0) } else { item.0.to_string() };
     TokDef { name: format!("t{}", idx), expr, is_string: item.1, re, prec: p.unwrap_or(0), src: format!("{}{}", item.0, p.map(|p| format!("@prec{}", p)).unwrap_or_default()) }
@@ -40,6 +41,7 @@ pub struct LexGrammar { pub id: String, pub g: G, pub toks: Vec<TokDef>, pub kin
 
 fn alphabet_for(toks: &[TokDef], space: bool) -> Vec<&'static str> {
     let mut a = vec!["a", "b", "c"];
+    if toks.iter().any(|t| t.src.starts_with("(?i)")) { a.push("A"); a.push("B"); }
     if space { a.push(" "); }
     if toks.iter().any(|t| t.src.contains("\\p{L}") || t.src.contains("[^a")) { a.push("é"); }
     a
